@@ -39,11 +39,17 @@ Inductive cres (A : Type) := COk (a : A) | CErr.
 Arguments COk {A} a.
 Arguments CErr {A}.
 
-(* defect switches of the pinned tree *)
-Record cfg := { map_value_into_key : bool }.
-Definition clean (c : cfg) : Prop := map_value_into_key c = false.
-Definition cfg_clean : cfg := {| map_value_into_key := false |}.
-Definition cfg_pinned : cfg := {| map_value_into_key := true |}.
+(* defect switches of the pinned tree.
+   map_value_into_key: convertMap converts the map value into the `key` variable (repaired in
+     /repo by ff3ad01; the switch stays so that the check describes either tree).
+   map_keeps_old_entries: convertMap stores into the map the destination already holds: entries
+     that were there before the conversion stay (only visible when the destination is not fresh,
+     see convert_into below). *)
+Record cfg := { map_value_into_key : bool; map_keeps_old_entries : bool }.
+Definition clean (c : cfg) : Prop := map_value_into_key c = false /\ map_keeps_old_entries c = false.
+Definition cfg_clean : cfg := {| map_value_into_key := false; map_keeps_old_entries := false |}.
+Definition cfg_pinned : cfg := {| map_value_into_key := true; map_keeps_old_entries := false |}.
+Definition cfg_keeps : cfg := {| map_value_into_key := false; map_keeps_old_entries := true |}.
 
 (* the seven classes of reflect.Kind the property speaks about *)
 Inductive kclass := KBool | KString | KInteger | KFloat | KSlice | KMap | KStruct.
@@ -319,6 +325,124 @@ Fixpoint convert_to (c : cfg) (to from : gotype) (w : val) {struct to} : cres va
 
 (* source type first, as in the statement of the property *)
 Definition convert (c : cfg) (from to : gotype) (w : val) : cres val := convert_to c to from w.
+
+(* ---------- destinations that are not fresh ---------- *)
+
+(* what a destination holds before a conversion.  A slice is described by its length AND its whole
+   backing array (Cap() elements): convertSlice re-uses the array when it is long enough (SetLen)
+   and converts element i *into* what the array holds at i, beyond the old length too.  Map keys
+   are plain values (nothing comparable has a capacity). *)
+Inductive dval :=
+| DVal (v : val)                        (* bool, string, integer, float *)
+| DSlice (len : nat) (arr : list dval)
+| DMap (m : list (val * dval))
+| DStruct (fs : list dval).
+
+(* the value a program sees in such a destination *)
+Fixpoint visible (d : dval) : val :=
+  match d with
+  | DVal v => v
+  | DSlice n arr => VSlice (firstn n (map visible arr))
+  | DMap m => VMap (map (fun kd : val * dval => (fst kd, visible (snd kd))) m)
+  | DStruct fs => VStruct (map visible fs)
+  end.
+
+(* a freshly allocated destination *)
+Fixpoint dzero (t : gotype) : dval :=
+  match t with
+  | TSlice _ => DSlice 0 []
+  | TMap _ _ => DMap []
+  | TStruct fs => DStruct (map (fun nt : string * gotype => dzero (snd nt)) fs)
+  | _ => DVal (zero t)
+  end.
+
+(* convert_into c to from w old: what ConvertFrom(&x, w) leaves in an x : to that held `old`
+   before the call (a reply variable used for a second call, a struct with default values, ...).
+   What the Go code does with the previous content:
+     scalars      overwritten;
+     slices       Cap() < len(w): a new zeroed array; otherwise SetLen(len(w)) on the old array and
+                  every element converted in place (elements beyond len(w) are cut off);
+     maps         nil: a new map; otherwise the SAME map receives the converted entries
+                  (switch map_keeps_old_entries; off = the destination holds the converted entries
+                  only); keys and elements are always converted into fresh variables (reflect.New);
+     structs      every target field with a match is converted in place, a field without a match
+                  keeps what it held. *)
+Section ConvSliceInto.
+  Variable cv : dval -> val -> cres val.   (* previous content of the element, source element *)
+  Variable z : dval.                       (* a fresh element *)
+  Fixpoint conv_slice_into (olds : list dval) (l : list val) : cres (list val) :=
+    match l with
+    | [] => COk []
+    | w :: r =>
+        match cv (match olds with o :: _ => o | [] => z end) w with
+        | CErr => CErr
+        | COk x => match conv_slice_into (tl olds) r with COk xs => COk (x :: xs) | CErr => CErr end
+        end
+    end.
+End ConvSliceInto.
+
+Section ConvFieldsInto.
+  Variable cv : gotype -> gotype -> val -> dval -> cres val.   (* to, from, value, previous content *)
+  Variable ffs : list (string * gotype).
+  Variable ws : list val.
+  Fixpoint conv_fields_into (tfs : list (string * gotype)) (olds : list dval) : cres (list val) :=
+    match tfs with
+    | [] => COk []
+    | (n, t) :: r =>
+        let o := match olds with o :: _ => o | [] => dzero t end in
+        match find_field n ffs ws with
+        | None => match conv_fields_into r (tl olds) with COk vs => COk (visible o :: vs) | CErr => CErr end
+        | Some (ft, fw) =>
+            match cv t ft fw o with
+            | CErr => CErr
+            | COk x => match conv_fields_into r (tl olds) with COk vs => COk (x :: vs) | CErr => CErr end
+            end
+        end
+    end.
+End ConvFieldsInto.
+
+Fixpoint convert_into (c : cfg) (to from : gotype) (w : val) (old : dval) {struct to} : cres val :=
+  match to with
+  | TSlice te =>
+      match from, w with
+      | TSlice fe, VSlice l =>
+          let olds := match old with
+                      | DSlice _ arr => if Nat.ltb (List.length arr) (List.length l) then [] else arr
+                      | _ => []
+                      end in
+          match conv_slice_into (fun o x => convert_into c te fe x o) (dzero te) olds l with
+          | COk l' => COk (VSlice l')
+          | CErr => CErr
+          end
+      | _, _ => CErr
+      end
+  | TMap tk te =>
+      match from, w with
+      | TMap fk fe, VMap m =>
+          let acc := if map_keeps_old_entries c
+                     then match visible old with VMap o => o | _ => [] end
+                     else [] in
+          match conv_map c (convert_to c tk fk) (convert_to c te fe) (convert_to c tk fe) (zero te) m acc with
+          | COk m' => COk (VMap m')
+          | CErr => CErr
+          end
+      | _, _ => CErr
+      end
+  | TStruct tfs =>
+      match from, w with
+      | TStruct ffs, VStruct ws =>
+          match conv_fields_into (fun t f x o => convert_into c t f x o) ffs ws tfs
+                                 (match old with DStruct os => os | _ => [] end) with
+          | COk vs => COk (VStruct vs)
+          | CErr => CErr
+          end
+      | _, _ => CErr
+      end
+  | _ => convert_to c to from w
+  end.
+
+(* source type first, previous content of the destination last *)
+Definition convert_onto (c : cfg) (from to : gotype) (w : val) (old : dval) : cres val := convert_into c to from w old.
 
 (* ---------- well-typed values ---------- *)
 
